@@ -396,11 +396,34 @@ def check_init(chk, prog, f, owned):
             args = n["ch"][1:]
             if args:
                 a0 = X.strip(args[0])
+                if cn in ("memset", "__builtin_memset", "__builtin___memset_chk") and a0 is not None and a0.get("k") == "un" and a0.get("op") == "&" and \
+                        self_field(a0["ch"][0]) is not None and len(args) >= 3:
+                    # a zero-fill that starts at one of self's fields: it covers the fields up to where its length says - exactly,
+                    # when the length is the distance to another field (&self->G - &self->F covers F .. the field before G)
+                    first = self_field(a0["ch"][0])
+                    rec_ = prog.records.get(classinfo.rec_of_param(f, 0) or "")
+                    order = [fl["n"] for fl in (rec_ or {}).get("fields", [])]
+                    ln = X.strip(args[2])
+                    stop = None
+                    if ln is not None and ln.get("k") == "bin" and ln.get("op") == "-":
+                        ends = [self_field(X.strip(y["ch"][0])) for y in walk(ln["ch"][0]) if y.get("k") == "un" and y.get("op") == "&" and self_field(X.strip(y["ch"][0]))]
+                        if ends:
+                            stop = ends[0]
+                    if first in order:
+                        i0 = order.index(first)
+                        i1 = order.index(stop) if stop in order else len(order)
+                        assigned.update(order[i0:i1])
                 if a0.get("k") == "ref" and a0.get("rk") == "param" and a0.get("pi") == 0:
                     if cn in ("memset", "__builtin_memset"):
                         delegated = True
                     if re.search(r"_init(_|$)", cn) and cn != f.name and not cn.startswith("spif_obj_init"):
-                        delegated = True
+                        # an initialiser of the same record does the whole job; one of an embedded parent record only its own fields
+                        h0 = prog.fn(cn)
+                        rec_c = classinfo.rec_of_param(h0, 0) if h0 is not None and h0.params else None
+                        if rec_c is None or rec_c == classinfo.rec_of_param(f, 0):
+                            delegated = True
+                        else:
+                            assigned.update(fl["n"] for fl in (prog.records.get(rec_c) or {}).get("fields", []))
                     # a static helper of the same file that is handed self: the fields it assigns (through its own first
                     # pointer parameter of the same record) count
                     h = f.unit.functions.get(cn)
